@@ -841,11 +841,29 @@ func c04InCore(l []*c04Item, ctx int) bool {
 			if ctx != 0 || !c04InCore(it.a, 2) || !c04InCore(it.b, 0) || c04Intersects(c04HeadNames(it.a), c04VarNames(it.b)) {
 				return false
 			}
+		case c04KClass:
+			// a class body without class-expression name; the members declare nothing (no var in static blocks)
+			if ctx == 2 || it.nm >= 0 || !c04InCore(it.a, 0) || len(c04LexNames(it.a)) != 0 || len(c04VarNames(it.a)) != 0 {
+				return false
+			}
+			if ctx == 1 && c04Intersects(c04AllNames(it.a), c04HeadNames(l[i+1:])) {
+				return false
+			}
 		default:
 			return false
 		}
 	}
 	return true
+}
+
+// c04HasClass: some class body occurs
+func c04HasClass(l []*c04Item) bool {
+	for _, it := range l {
+		if it.kind == c04KClass || c04HasClass(it.a) || c04HasClass(it.b) {
+			return true
+		}
+	}
+	return false
 }
 
 // c04HasDefaults: some parameter list has a default value (the newest part of the fragment)
@@ -933,6 +951,14 @@ var c04ScopeE2EAMModel = &Model{
 		for i, got := 0, 0; i < 40*n && got < n/2; i++ {
 			l := c04GenProgram(r, 3+i%25, false)
 			if c04HasDefaults(l) && c04InCore(l, 0) {
+				got++
+				emit(c04E2eCase("scope_e2e_am", l, "random: "))
+			}
+		}
+		// the fragment with class bodies
+		for i, got := 0, 0; i < 40*n && got < n/3; i++ {
+			l := c04GenProgram(r, 3+i%25, false)
+			if c04HasClass(l) && c04InCore(l, 0) {
 				got++
 				emit(c04E2eCase("scope_e2e_am", l, "random: "))
 			}
